@@ -45,8 +45,12 @@ func handleSchema(definition *ast.Document) error {
 		queryNodeRef = definition.ImportObjectTypeDefinition("Query", "", nil, nil)
 	}
 
+	// an explicit schema definition names the mutation and subscription types itself: object types
+	// that merely carry the default names are ordinary types then (only the query type, which has
+	// to carry the introspection fields, is still completed)
+	hadSchemaDefinition := definition.HasSchemaDefinition()
 	addSchemaDefinition(definition)
-	addMissingRootOperationTypeDefinitions(definition)
+	addMissingRootOperationTypeDefinitions(definition, hadSchemaDefinition)
 	addIntrospectionQueryFields(definition, queryNodeRef)
 
 	typeNamesVisitor := NewTypeNameVisitor()
@@ -63,7 +67,7 @@ func addSchemaDefinition(definition *ast.Document) {
 	definition.AddSchemaDefinitionRootNode(schemaDefinition)
 }
 
-func addMissingRootOperationTypeDefinitions(definition *ast.Document) {
+func addMissingRootOperationTypeDefinitions(definition *ast.Document, queryOnly bool) {
 	var rootOperationTypeRefs []int
 
 	for i := range definition.RootNodes {
@@ -73,6 +77,8 @@ func addMissingRootOperationTypeDefinitions(definition *ast.Document) {
 			switch {
 			case bytes.Equal(typeName, ast.DefaultQueryTypeName):
 				rootOperationTypeRefs = createRootOperationTypeIfNotExists(definition, rootOperationTypeRefs, ast.OperationTypeQuery, i)
+			case queryOnly:
+				continue
 			case bytes.Equal(typeName, ast.DefaultMutationTypeName):
 				rootOperationTypeRefs = createRootOperationTypeIfNotExists(definition, rootOperationTypeRefs, ast.OperationTypeMutation, i)
 			case bytes.Equal(typeName, ast.DefaultSubscriptionTypeName):
